@@ -34,27 +34,32 @@ Boards == { [di1 |-> 0, temp |-> 0, j1 |-> FALSE, j2 |-> FALSE, ai1 |-> 0, ai2 |
             [di1 |-> 171, temp |-> 2500, j1 |-> TRUE, j2 |-> FALSE, ai1 |-> 1, ai2 |-> 5000, uio1 |-> TRUE, uio2 |-> FALSE, uio3 |-> TRUE],
             [di1 |-> 255, temp |-> 0, j1 |-> FALSE, j2 |-> TRUE, ai1 |-> 4999, ai2 |-> 0, uio1 |-> FALSE, uio2 |-> TRUE, uio3 |-> FALSE] }
 
-Configs == { [p |-> p, n |-> n, ints |-> is, resets |-> rs, inr |-> inp, bd |-> b] :
-               p \in 1..Len(Images), n \in Budgets, is \in UNION {IntSets(k) : k \in Budgets}, rs \in UNION {ResetSets(k) : k \in Budgets}, inp \in Inputs, b \in Boards }
-\* board configurations other than the default only with the program that looks at the board (6) and two budgets
-ConfigsOf == { c \in Configs : c.ints \in IntSets(c.n) /\ c.resets \in ResetSets(c.n)
-                               /\ (c.bd.di1 # 0 => c.p = 6 /\ c.n \in {9, 40} /\ Cardinality(c.ints) <= 1 /\ Cardinality(c.resets) <= 1) }
+\* board configurations other than the default only with the program that looks at the board (6), two budgets, small schedules
+ConfigsOf ==
+  UNION { { [p |-> p, n |-> n, ints |-> is, resets |-> rs, inr |-> inp, bd |-> b] :
+              p \in 1..Len(Images), is \in IntSets(n), rs \in ResetSets(n), inp \in Inputs,
+              b \in { x \in Boards : x.di1 = 0 } } : n \in Budgets }
+  \cup UNION { { [p |-> 6, n |-> n, ints |-> is, resets |-> rs, inr |-> inp, bd |-> b] :
+              is \in {{}, {0}, {7}}, rs \in {{}, {2}}, inp \in Inputs, b \in { x \in Boards : x.di1 # 0 } } : n \in {9, 40} }
 
 MC(c) == [inr |-> [k \in 0..3 |-> c.inr[k + 1]], di1 |-> c.bd.di1, temp |-> c.bd.temp, j1 |-> c.bd.j1, j2 |-> c.bd.j2,
           ai1 |-> c.bd.ai1, ai2 |-> c.bd.ai2, uio1 |-> c.bd.uio1, uio2 |-> c.bd.uio2, uio3 |-> c.bd.uio3]
-Init == /\ cf \in ConfigsOf
-        /\ m = RunnerStart(MC(cf), Images[cf.p], 16, -1)
-        /\ i = 0 /\ fin = (cf.n = 0)
-Next == /\ ~fin
-        /\ m' = RunnerCycle(m, i, cf.ints, cf.resets)
-        /\ i' = i + 1
-        /\ fin' = (m'.st # "Running" \/ i' = cf.n)
-        /\ cf' = cf
+\* the machine is built in a first step (so that TLC's workers share the construction)
+Init == /\ cf \in ConfigsOf /\ m = 0 /\ i = -1 /\ fin = FALSE
+Next == \/ /\ i = -1
+           /\ m' = RunnerStart(MC(cf), Images[cf.p], 16, -1)
+           /\ i' = 0 /\ fin' = (cf.n = 0) /\ cf' = cf
+        \/ /\ i >= 0 /\ ~fin
+           /\ m' = RunnerCycle(m, i, cf.ints, cf.resets)
+           /\ i' = i + 1
+           /\ fin' = (m'.st # "Running" \/ i' = cf.n)
+           /\ cf' = cf
 
 \* the reported count is the number of edges issued; the run stops after N cycles or right after the halting cycle
-CyclesOk == fin => /\ i <= cf.n
-                   /\ i < cf.n => m.st # "Running"
-                   /\ i = 0 => cf.n = 0
+CyclesOk == (fin /\ i >= 0) =>
+              /\ i <= cf.n
+              /\ i < cf.n => m.st # "Running"
+              /\ i = 0 => cf.n = 0
 Exps == { [st |-> s, fe |-> fe, ff |-> ff] : s \in {"none", "Running", "Stopped", "ErrorStopped"},
                                                fe \in {-1, 0, 3, 90}, ff \in {-1, 0, 1, 200} }
 VerifyConsistent == fin => \A e \in Exps : VerifyOk(e, m) <=> VerifyError(e, m) = "ok"
